@@ -1219,12 +1219,26 @@ fn c03_store_general_w5() {
 // ---- State::load (general) ----------------------------------------------------------------------------
 
 fn load_general_body(idx: usize) {
+    load_general_body_live(idx, H)
+}
+
+/// `nlive < 7`: only slots 0..nlive hold stores, the others are default (quick-tier sub-case).
+fn load_general_body_live(idx: usize, nlive: usize) {
     let mut set = any_set(2);
     crate::rt::thread::verif_kani::assume_incrementable(&set);
     let a = crate::rt::thread::verif_kani::active_index(&set).unwrap();
     let th = crate::rt::thread::verif_kani::th_view(thread_at(&set, a));
     let mut st = any_atomic_state();
     kani::assume(!st.is_mutating && vv_le(&st.unsync_mut_at, &th.causality)); // no race: C04 has its own harnesses
+    if nlive < H {
+        st.cnt = nlive as u16;
+        let v0 = atomic_view(&st);
+        let mut i = 0;
+        while i < H {
+            kani::assume(i < nlive || slot_is_default(&v0.stores[i]));
+            i += 1;
+        }
+    }
     let old = atomic_view(&st);
     let o = any_order();
     let r = load_at(&mut st, &mut set, idx, o);
@@ -1263,7 +1277,16 @@ fn load_general_body(idx: usize) {
 }
 
 crate::with_fire_forbidden! {
-//@ props=C02,C03 tier=quick timeout=1500 fns=src/rt/atomic.rs::State::load,src/rt/atomic.rs::State::apply_load_coherence bounded=threads:N=2,read_index:3 models=VersionVec::join=s_vv_models_agree,FirstSeen::is_seen_by_current=s_firstseen
+//@ props=C02,C03 tier=thorough timeout=3000 fns=src/rt/atomic.rs::State::load,src/rt/atomic.rs::State::apply_load_coherence bounded=threads:N=2,live_stores:3,read_index:1 models=VersionVec::join=s_vv_models_agree,FirstSeen::is_seen_by_current=s_firstseen
+#[kani::proof]
+#[kani::unwind(12)]
+fn c03_load_general_l3() {
+    load_general_body_live(1, 3);
+}
+}
+
+crate::with_fire_forbidden! {
+//@ props=C02,C03 tier=thorough timeout=3000 fns=src/rt/atomic.rs::State::load,src/rt/atomic.rs::State::apply_load_coherence bounded=threads:N=2,read_index:3 models=VersionVec::join=s_vv_models_agree,FirstSeen::is_seen_by_current=s_firstseen
 #[kani::proof]
 #[kani::unwind(12)]
 fn c03_load_general_i3() {
